@@ -32,6 +32,20 @@ impl cbor_event::se::Serialize for NativeScriptEnum {
     }
 }
 
+// an indefinite-length native script array ends with a break that must be consumed
+fn end_of_native_script<R: BufRead + Seek>(
+    raw: &mut Deserializer<R>,
+    len: cbor_event::Len,
+    script: NativeScriptEnum,
+) -> Result<NativeScriptEnum, DeserializeError> {
+    if let cbor_event::Len::Indefinite = len {
+        if raw.special()? != CBORSpecial::Break {
+            return Err(DeserializeFailure::EndingBreakMissing.into());
+        }
+    }
+    Ok(script)
+}
+
 impl Deserialize for NativeScriptEnum {
     fn deserialize<R: BufRead + Seek>(raw: &mut Deserializer<R>) -> Result<Self, DeserializeError> {
         (|| -> Result<_, DeserializeError> {
@@ -44,7 +58,7 @@ impl Deserialize for NativeScriptEnum {
                 )?)
             })(raw)
             {
-                Ok(variant) => return Ok(NativeScriptEnum::ScriptPubkey(variant)),
+                Ok(variant) => return end_of_native_script(raw, len, NativeScriptEnum::ScriptPubkey(variant)),
                 Err(_) => raw
                     .as_mut_ref()
                     .seek(SeekFrom::Start(initial_position))
@@ -56,7 +70,7 @@ impl Deserialize for NativeScriptEnum {
                 )?)
             })(raw)
             {
-                Ok(variant) => return Ok(NativeScriptEnum::ScriptAll(variant)),
+                Ok(variant) => return end_of_native_script(raw, len, NativeScriptEnum::ScriptAll(variant)),
                 Err(_) => raw
                     .as_mut_ref()
                     .seek(SeekFrom::Start(initial_position))
@@ -68,7 +82,7 @@ impl Deserialize for NativeScriptEnum {
                 )?)
             })(raw)
             {
-                Ok(variant) => return Ok(NativeScriptEnum::ScriptAny(variant)),
+                Ok(variant) => return end_of_native_script(raw, len, NativeScriptEnum::ScriptAny(variant)),
                 Err(_) => raw
                     .as_mut_ref()
                     .seek(SeekFrom::Start(initial_position))
@@ -80,7 +94,7 @@ impl Deserialize for NativeScriptEnum {
                 )?)
             })(raw)
             {
-                Ok(variant) => return Ok(NativeScriptEnum::ScriptNOfK(variant)),
+                Ok(variant) => return end_of_native_script(raw, len, NativeScriptEnum::ScriptNOfK(variant)),
                 Err(_) => raw
                     .as_mut_ref()
                     .seek(SeekFrom::Start(initial_position))
@@ -92,7 +106,7 @@ impl Deserialize for NativeScriptEnum {
                 )?)
             })(raw)
             {
-                Ok(variant) => return Ok(NativeScriptEnum::TimelockStart(variant)),
+                Ok(variant) => return end_of_native_script(raw, len, NativeScriptEnum::TimelockStart(variant)),
                 Err(_) => raw
                     .as_mut_ref()
                     .seek(SeekFrom::Start(initial_position))
@@ -104,7 +118,7 @@ impl Deserialize for NativeScriptEnum {
                 )?)
             })(raw)
             {
-                Ok(variant) => return Ok(NativeScriptEnum::TimelockExpiry(variant)),
+                Ok(variant) => return end_of_native_script(raw, len, NativeScriptEnum::TimelockExpiry(variant)),
                 Err(_) => raw
                     .as_mut_ref()
                     .seek(SeekFrom::Start(initial_position))
